@@ -116,7 +116,7 @@ fn one(lm: &LinearModel, lms: &str, base: &Outcome, gap: (Option<f64>, &str), li
 
 fn one_entry(entry: Entry, lm: &LinearModel, lms: &str, base: &Outcome, gap: (Option<f64>, &str), limit: Option<u64>, fam: &str, fixed: bool, out: &mut Vec<Case>) {
     let kind = match entry { Entry::Direct => SolverKind::Milp, Entry::Builder => SolverKind::BuilderMicrolp, Entry::Door => SolverKind::BuilderDoorMicrolp, Entry::DoorAux => SolverKind::BuilderDoorMicrolpAux };
-    let opts = Opts { time_limit_ns: limit, mip_gap_bits: gap.0.map(f64::to_bits), simplex_limit: 0 };
+    let opts = Opts { time_limit_ns: limit, mip_gap_bits: gap.0.map(f64::to_bits), ..Opts::default() };
     // the raw answer of microlp is reproducible only when the clock plays no role
     // (a limit of a second or more never fires on these models)
     let deterministic = matches!(limit, None | Some(0)) || limit.map_or(false, |l| l >= 1_000_000_000);
@@ -233,6 +233,48 @@ pub fn generate(seed: u64, n: usize, _thorough: bool, _corpus: Option<&str>) -> 
         for g in [(Some(0.01), "gap-1e-2"), (Some(0.001), "gap-1e-3"), (Some(0.05), "gap-5e-2")] {
             one_entry(Entry::Direct, &lm, &lms, &base, g, None, "small-magnitude-objective", fixed, &mut cases);
             one_entry(Entry::Builder, &lm, &lms, &base, g, None, "small-magnitude-objective", fixed, &mut cases);
+        }
+    }
+    // the same option set TWICE on one `Microlp` value: the LAST call wins (a fresh object carrying only the last value
+    // must give the same answer, and the label / the rejection is judged for the last value)
+    let mut r7 = Rng::new(seed ^ 0x7a57);
+    let minute = Some(60_000_000_000u64);
+    for k in 0..8 {
+        let lm = if k == 0 { seeded_knapsack() } else if k % 2 == 1 { gen_lp::near_tied(&mut r7) } else { knapsack(&mut r7) };
+        let lms = sx::lin_model(&lm);
+        let base = child::solve(SolverKind::Milp, &lm, &Opts::default(), TIMEOUT);
+        let seqs: [(Option<f64>, Option<f64>, Option<u64>, Option<u64>, &str); 8] = [
+            (Some(0.5), Some(0.0), None, None, "gap-large-then-zero"),
+            (Some(0.0), Some(0.5), None, None, "gap-zero-then-large"),
+            (Some(10.0), Some(1e-9), None, None, "gap-huge-then-small"),
+            (Some(0.5), Some(-1.0), None, None, "gap-valid-then-invalid"),
+            (Some(f64::NAN), Some(0.0), None, None, "gap-invalid-then-valid"),
+            (Some(-1.0), Some(0.5), None, None, "gap-invalid-then-valid"),
+            (None, None, Some(0), minute, "limit-zero-then-minute"),
+            (None, None, minute, Some(0), "limit-minute-then-zero"),
+        ];
+        for (g1, g2, l1, l2, tag) in seqs {
+            let twice = Opts { first_gap_bits: g1.map(f64::to_bits), mip_gap_bits: g2.map(f64::to_bits), first_limit_ns: l1, time_limit_ns: l2, ..Opts::default() };
+            let last = Opts { mip_gap_bits: g2.map(f64::to_bits), time_limit_ns: l2, ..Opts::default() };
+            let o2 = child::solve(SolverKind::BuilderMicrolp, &lm, &twice, TIMEOUT);
+            let o1 = child::solve(SolverKind::BuilderMicrolp, &lm, &last, TIMEOUT);
+            let (r2, r1) = (gen_lp::result(&o2), gen_lp::result(&o1));
+            let mut c = Case::default();
+            c.imp = r2.clone();
+            let raw = child::solve(SolverKind::RawMilp, &lm, &last, TIMEOUT);
+            if let Some(rawx) = gen_lp::mlp(&raw) {
+                c.req = format!("{} {} {} {} {}", if fixed { "builder-microlp-fixed" } else { "builder-microlp" }, lms, enc_gap(g2), enc_limit(l2), rawx);
+            }
+            c.oracle = format!("label {} {} {} {} {} {}", lms, enc_gap(g2), enc_limit(l2), r2, gen_lp::result(&base), raw_status(&raw));
+            if r2 != r1 {
+                c.impl_violation = Some(format!("Microlp option set twice ({}): the object with both calls answers {} but a fresh object with only the last value answers {}", tag, &r2[..r2.len().min(90)], &r1[..r1.len().min(90)]));
+                c.sig = Some("builder-option-last-call-does-not-win".into());
+            }
+            c.tags = vec!["family-option-set-twice".into(), format!("twice-{}", tag), "entry-builder-microlp".into(),
+                match &o2 { Outcome::Solution(s) => format!("answer-solution-{}", s.status), Outcome::Err { variant, .. } => format!("answer-err-{}", variant), Outcome::Panic(_) => "answer-panic".into(), Outcome::Hang => "answer-hang".into() }];
+            c.nontrivial = true;
+            c.show = format!("Microlp::new().with_mip_gap({:?}).with_mip_gap({:?}) / with_time_limit({:?}).with_time_limit({:?}) .solve on: {}", g1, g2, l1, l2, show_model(&lm));
+            cases.push(c);
         }
     }
     // Satisfy models (no objective) x invalid and valid gaps x every door: invalid options are rejected there too
